@@ -49,6 +49,23 @@ def register(J):
                                "(contract proved by job rcwc, REPLACED here); C06/C20: its code is returned; after a "
                                "failure nothing is handed back, the placeholder object and a partial merge result are "
                                "released exactly once."))
+    for n, fn in ((1, "econf_readDirsHistoryWithCallback"), (2, "econf_readDirsHistory")):
+        J.append(Job("entry." + fn, ["C12", "C06", "C20", "C01"], "harness/entry_hist.c", sources=["lib/libeconf.c"],
+                     stubs=["stubs/strdup_log.c"], contracts=["contracts/entry_hist.h"], enforce=fn,
+                     replace=["readConfigHistoryWithCallback"],
+                     defines=["-DFN=%d" % n], unwind=8, tier="T1", timeout=600, mem_gb=8, functions=[fn, "econf_freeArray"],
+                     expect=[fn + r"\.postcondition\.", r"readConfigHistoryWithCallback\.precondition"],
+                     extra_cbmc=["--memory-leak-check"],
+                     model="M-packed abstract strdup with a ghost log (stubs/strdup_log.c)",
+                     trusted=["readConfigHistoryWithCallback records its arguments and hands back the environment's "
+                              "answer (assumed contract in contracts/entry_hist.h; its behaviour is the subject of the "
+                              "bounded jobs history.* / dropins.*)",
+                              "calloc does not fail (--no-malloc-may-fail): the entry points do not check it"],
+                     statement="C12/C01: the history entry point passes the layer list (distribution dir or \"\", /etc "
+                               "dir or \"\"), name, suffix, delimiters, comment set, no options, the process-wide "
+                               "drop-in list and callback/data unchanged to the history reader; C06/C20: returns its "
+                               "code, leaves its out-parameters as the reader set them, releases its private layer "
+                               "list (no allocation of the call remains: CBMC memory-leak check)."))
     for n, fn in enumerate(["econf_requireOwner", "econf_requireGroup", "econf_requirePermissions",
                             "econf_followSymlinks", "econf_reset_security_settings"], 1):
         J.append(Job("security." + fn, ["C16", "C18"], "harness/security.c", sources=["lib/libeconf.c"],
